@@ -1319,7 +1319,11 @@ insert_list:
         rq.current->error_number = 0;
         auto sw = AtomicRunQ(rq).goto_next();
         switch_context(sw.from, sw.to);
-        return rq.current->error_number;
+        // consume the reason that is reported, so that it does not
+        // also end a later, unrelated sleep
+        auto ret = rq.current->error_number;
+        rq.current->error_number = 0;
+        return ret;
     }
 
     __attribute__((noinline))
@@ -1352,7 +1356,9 @@ insert_list:
         if_update_now();
         rq.current->error_number = 0;
         switch_context(sw.from, sw.to);
-        return rq.current->error_number;
+        auto ret = rq.current->error_number;
+        rq.current->error_number = 0;
+        return ret;
     }
 
     __attribute__((always_inline)) inline
